@@ -70,6 +70,17 @@ func VerifShiftSeq(t Tube, start uint32) bool {
 // not stop itself after a transport error).
 func VerifMuxerRunning(m *Muxer) bool { return m.state.Load() == muxerRunning }
 
+// VerifDupAckLimitHit reports whether the sender of a reliable tube has counted more than 100 duplicate
+// acknowledgements in a row (the condition on which recvAck gives the tube up).
+func VerifDupAckLimitHit(t Tube) bool {
+	v, ok := t.(*Reliable)
+	if !ok || !v.sender.m.TryLock() {
+		return false
+	}
+	defer v.sender.m.Unlock()
+	return v.sender.senderWindow.duplicatedAckCounter > 100
+}
+
 func VerifNewReceiver(start uint64) *VerifRecv {
 	r := newReceiver(logrus.WithField("verif", "recv"))
 	r.m.Lock()
